@@ -39,6 +39,27 @@ theorem set_sound_current_source (I : Impl) (a : ArgDecl) (v w : PyVal)
   · exact set_sound_aux I a v w (Or.inr h1) (Or.inr h2) h
   · exact set_sound_top_cfg I a c hc v w h
 
+/-- **"after the documented coercions: integral float to int, int to float, string to path"** — these are
+    the *only* ways in which `int`, `float`, `str` and `Path` parameters accept something that is not already
+    a member (every switch value): an `int` parameter takes an `int`/`bool` unchanged or a finite float
+    without fractional part as that integer; a `float` parameter takes a `float` unchanged, an `int` rounded
+    to the nearest double (`OverflowError` beyond the range) or a `bool` as 0.0/1.0; a `str` parameter only a
+    `str`; a `Path` parameter a `Path` unchanged, a `str` as that path, or the serialised form
+    `{"$type": "path", "$value": …}`.  (`bool` parameters store `bool(v)` for every `v`.) -/
+theorem scalar_coercions_exact (I : Impl) (v w : PyVal) :
+    (validate I .int v = .ok w →
+      (w = v ∧ conforms .int v = true) ∨ (∃ f i, v = .float f ∧ f.toInt? = some i ∧ w = .int i)) ∧
+    (validate I .float v = .ok w →
+      (w = v ∧ conforms .float v = true) ∨ (∃ i f, v = .int i ∧ Fl.ofInt? i = some f ∧ w = .float f) ∨
+      (∃ b, v = .bool b ∧ w = .float (.fin false (if b then 1 else 0) 0))) ∧
+    (validate I .str v = .ok w → w = v ∧ conforms .str v = true) ∧
+    (validate I .path v = .ok w →
+      (w = v ∧ conforms .path v = true) ∨ (∃ s, v = .str s ∧ w = .path (pnorm s)) ∨
+      (∃ ks vs, v = .dict ks vs ∧ isPathTag (lookup "$type" ks vs) = true ∧ pathOf (lookup "$value" ks vs) = .ok w)) ∧
+    validate I .bool v = .ok (.bool v.truthy) :=
+  ⟨fun h => vInt_exact (by simpa [validate] using h), fun h => vFloat_exact (by simpa [validate] using h),
+   fun h => vStr_exact (by simpa [validate] using h), fun h => vPath_exact (by simpa [validate] using h), by simp [validate]⟩
+
 /-- F10 (negation witness): with the source as found, `Param[Union[int, str]]` given `{"a": 1}` stores
     `None`, which is not a member of the declared type. -/
 theorem F10_witness :
